@@ -199,7 +199,6 @@ pub fn all_ops(n: u8) -> Vec<Op> {
 }
 
 /// Families: sub-alphabets explored to different depths.
-pub const PARTS: &[&str] = &["graph", "weak", "eph", "map", "res", "full"];
 pub fn part_allows(part: &str, op: &Op) -> bool {
     use Op::*;
     let base = matches!(op, Alloc(_) | Drop(_) | Link(..) | Unlink(..) | Collect);
@@ -207,6 +206,8 @@ pub fn part_allows(part: &str, op: &Op) -> bool {
         "graph" => base || matches!(op, Clone(_) | Follow(..)),
         "weak" => base || matches!(op, HostWeak(_) | DropHostWeak(_) | UpgradeKeep(_) | NodeWeak(..)),
         "eph" => base || matches!(op, HostEph(..) | DropHostEph(_) | TakeValue(_) | NodeEph(..)),
+        // host-held ephemerons only (ephemeron chains at greater depth)
+        "ephh" => matches!(op, Alloc(_) | Drop(_) | Link(..) | Collect | HostEph(..) | DropHostEph(_) | TakeValue(_)),
         "map" => matches!(op, Alloc(_) | Drop(_) | Link(..) | Collect | MapNew | MapDropHost | MapStore(_) | MapTake(_) | MapInsert(..) | MapRemove(_)),
         "res" => base || matches!(op, Clone(_) | ArmHost(_) | ArmNode(..) | HostWeak(_)),
         "full" => true,
@@ -239,6 +240,9 @@ pub struct BoxM {
     pub v: u8,
     pub holder: Holder,
     pub cleared: bool,
+    /// became unreferenced only in the post-sweep step of a collection (dead weak map's anchor, expired
+    /// weak-map entry): boa releases it one collection late (defect 17, a C10 matter); C09 accepts both
+    pub lag: bool,
 }
 #[derive(Clone, Copy, PartialEq, Eq, Debug)]
 pub enum S {
@@ -319,6 +323,8 @@ pub struct M {
     pub sizes: Sizes,
     pub caps: Caps,
     pub flags: u16,
+    /// every allocation first runs a collection (boa_gc::verif Schedule::Every(1)): exercises Allocator::manage_state
+    pub gc_alloc: bool,
 }
 
 pub struct Reach {
@@ -348,6 +354,7 @@ impl M {
             sizes,
             caps,
             flags: 0,
+            gc_alloc: false,
         }
     }
     fn h(&self, i: u8) -> bool {
@@ -415,7 +422,7 @@ impl M {
     fn new_box(&mut self, kind: BK, k: u8, v: u8, holder: Holder) -> u32 {
         let id = self.next_box;
         self.next_box += 1;
-        self.boxes.push(BoxM { id, kind, k, v, holder, cleared: false });
+        self.boxes.push(BoxM { id, kind, k, v, holder, cleared: false, lag: false });
         id
     }
 
@@ -436,6 +443,18 @@ impl M {
         }
         b
     }
+    /// sizes of the boxes whose release boa delays by one collection (each may or may not still exist)
+    pub fn lag_sizes(&self) -> Vec<usize> {
+        self.boxes
+            .iter()
+            .filter(|b| b.lag)
+            .map(|b| match b.kind {
+                BK::Weak => self.sizes.weak,
+                BK::Eph => self.sizes.eph,
+                BK::Anchor => self.sizes.anchor,
+            })
+            .collect()
+    }
     pub fn n_strongs(&self) -> usize {
         self.strongs.len()
     }
@@ -449,6 +468,22 @@ impl M {
     /// Apply an enabled op. Returns the expected boolean result of the op where it has one.
     pub fn apply(&mut self, op: Op) -> Option<bool> {
         self.flags = 0;
+        let mut pre_flags = 0;
+        if self.gc_alloc {
+            // the collection runs inside the allocator, before the new box is registered; everything the
+            // operation touches is still held by host handles, so it sees the state before the op
+            let allocs = match op {
+                Op::Alloc(_) | Op::HostWeak(_) | Op::HostEph(..) | Op::NodeWeak(..) | Op::NodeEph(..) | Op::MapInsert(..) | Op::ArmHost(_) | Op::ArmNode(..) => 1,
+                Op::MapNew => 2,
+                _ => 0,
+            };
+            for _ in 0..allocs {
+                // WeakMap::insert allocates while the map's GcRefCell is mutably borrowed: the collector cannot
+                // drop expired entries then (try_borrow_mut fails); they go at the next collection
+                self.collect_inner(true, matches!(op, Op::MapInsert(..)));
+                pre_flags |= self.flags;
+            }
+        }
         let mut res = None;
         match op {
             Op::Alloc(i) => {
@@ -518,8 +553,15 @@ impl M {
                 self.entries.clear();
             }
             Op::MapDropHost => self.map_host = false,
-            Op::MapStore(i) => self.nodes[i as usize].has_map = true,
-            Op::MapTake(_) => self.map_host = true,
+            Op::MapStore(i) => {
+                // the single map handle moves from the host into node i
+                self.nodes[i as usize].has_map = true;
+                self.map_host = false;
+            }
+            Op::MapTake(i) => {
+                self.nodes[i as usize].has_map = false;
+                self.map_host = true;
+            }
             Op::MapInsert(k, v) => {
                 if let Some(old) = self.entry_for(k) {
                     self.entries.retain(|&e| e != old);
@@ -536,7 +578,7 @@ impl M {
                     self.bx_mut(old).holder = Holder::Orphan;
                 }
             }
-            Op::Collect => self.collect(),
+            Op::Collect => self.collect_inner(false, false),
             Op::ArmHost(i) => {
                 self.new_box(BK::Weak, i, NONE, Holder::Arm(i));
                 self.nodes[i as usize].arm = 1;
@@ -547,6 +589,7 @@ impl M {
                 self.nodes[j as usize].hidden += 1;
             }
         }
+        self.flags |= pre_flags;
         if op != Op::Collect {
             let r = self.reach();
             if (0..self.n as usize).any(|i| self.nodes[i].alive && !r.node[i]) {
@@ -561,7 +604,7 @@ impl M {
     /// map it stores", "map reaches its entries" propagate; an ephemeron's value is reached if the box
     /// is reached AND its key is reached.
     pub fn reach(&self) -> Reach {
-        self.reach_with(true)
+        self.reach_with(true, None)
     }
     fn closure(&self, node: &mut [bool], bx: &mut [bool], map: &mut bool) {
         let n = self.n as usize;
@@ -607,7 +650,7 @@ impl M {
         }
     }
 
-    pub fn reach_with(&self, use_eph: bool) -> Reach {
+    pub fn reach_with(&self, use_eph: bool, seed: Option<&Reach>) -> Reach {
         let n = self.n as usize;
         let mut node = vec![false; n];
         let mut bx = vec![false; self.boxes.len()];
@@ -621,6 +664,16 @@ impl M {
             if matches!(b.holder, Holder::Host | Holder::MapBox | Holder::Arm(_)) {
                 bx[bi] = true;
             }
+        }
+        if let Some(s) = seed {
+            // everything that was marked by the first pass stays marked (it was reachable when the collection began)
+            for i in 0..n {
+                node[i] |= s.node[i] && self.nodes[i].alive;
+            }
+            for bi in 0..bx.len() {
+                bx[bi] |= s.bx[bi];
+            }
+            map |= s.map && self.map_alive;
         }
         let mu = mutate();
         if mu == 2 {
@@ -661,14 +714,15 @@ impl M {
         Reach { node, bx, map, rounds }
     }
 
-    fn collect(&mut self) {
-        if self.bytes() == 0 {
+    fn collect_inner(&mut self, forced: bool, map_busy: bool) {
+        self.flags = 0;
+        if self.bytes() == 0 && !forced {
             return; // force_collect does nothing on an empty heap
         }
         self.colls += 1;
         let n = self.n as usize;
         let r1 = self.reach();
-        let strong_only = self.reach_with(false);
+        let strong_only = self.reach_with(false, None);
         let mut flags = 0u16;
         if r1.rounds >= 2 {
             flags |= feat::EPH_ROUNDS;
@@ -736,10 +790,10 @@ impl M {
             }
         }
         // re-mark (resurrection); marks accumulate
-        let r2 = self.reach();
-        let keep_node: Vec<bool> = (0..n).map(|i| r1.node[i] || r2.node[i]).collect();
-        let keep_box: Vec<bool> = (0..self.boxes.len()).map(|b| r1.bx[b] || r2.bx[b]).collect();
-        let keep_map = r1.map || r2.map;
+        let r2 = self.reach_with(true, Some(&r1));
+        let keep_node: Vec<bool> = r2.node.clone();
+        let keep_box: Vec<bool> = r2.bx.clone();
+        let keep_map = r2.map;
         // taint (merge key only)
         for &i in &condemned {
             if keep_node[i as usize] {
@@ -810,14 +864,17 @@ impl M {
                 for b in self.boxes.iter_mut() {
                     if b.kind == BK::Anchor && b.holder == Holder::MapBox {
                         b.holder = Holder::Orphan;
+                        b.lag = true;
                         flags |= feat::MAP_LAG;
                     }
                 }
-            } else {
+            } else if !map_busy {
                 let expired: Vec<u32> = self.entries.iter().copied().filter(|&e| self.bx(e).cleared).collect();
                 for e in expired {
                     self.entries.retain(|&x| x != e);
-                    self.bx_mut(e).holder = Holder::Orphan;
+                    let b = self.bx_mut(e);
+                    b.holder = Holder::Orphan;
+                    b.lag = true;
                 }
             }
         }
